@@ -6,7 +6,7 @@ with Python ints (C19: the BD expression evaluator).  No Mathlib here (models li
 
 Partial operators return `PyRes`: `//`, `%` raise ZeroDivisionError on a zero divisor, `<<`, `>>` raise
 ValueError on a negative count (both are `PyErr.other`: not an SPSDK error class).
-Not modelled: MemoryError/OverflowError of astronomically large shift counts.
+Left shifts by more than `maxShift` = 2^24 bits are refused (MemoryError/OverflowError territory).
 -/
 import SpsdkVerif.Base.Py
 namespace SpsdkVerif
@@ -39,8 +39,13 @@ def intXor : Int → Int → Int
 def pyDivE (a b : Int) : PyRes Int := if b = 0 then .error .other else .ok (Int.fdiv a b)
 /-- Python `a % b`. -/
 def pyModE (a b : Int) : PyRes Int := if b = 0 then .error .other else .ok (Int.fmod a b)
+/-- largest shift count the models evaluate: beyond it Python needs megabytes to gigabytes for the result and finally raises
+    MemoryError / OverflowError; the models refuse it (and the native drivers would abort in `Nat.pow`). -/
+def maxShift : Int := 16777216
+
 /-- Python `a << b`. -/
-def pyShlE (a b : Int) : PyRes Int := if b < 0 then .error .other else .ok (a * 2 ^ b.toNat)
+def pyShlE (a b : Int) : PyRes Int :=
+  if b < 0 then .error .other else if b > maxShift then .error .other else .ok (a * 2 ^ b.toNat)
 /-- Python `a >> b` (arithmetic shift = floor division by 2^b). -/
 def pyShrE (a b : Int) : PyRes Int := if b < 0 then .error .other else .ok (a >>> b.toNat)
 
